@@ -12,10 +12,20 @@ def _strip_comments(src):
 
 
 def _functions(src):
-    """yield (name, body_text) for every `fn` in src (brace matching)"""
+    """yield (name, body_text) for every `fn` in src (parameter list and body by bracket matching)"""
     for m in re.finditer(r"\bfn\s+([A-Za-z_0-9]+)\s*(?:<[^>{;]*>)?\s*\(", src):
-        j = src.find("{", m.end())
-        k = src.find(";", m.end())
+        # end of the parameter list (it may contain braces: destructuring patterns)
+        depth, q = 0, m.end() - 1
+        while q < len(src):
+            if src[q] == "(":
+                depth += 1
+            elif src[q] == ")":
+                depth -= 1
+                if depth == 0:
+                    break
+            q += 1
+        j = src.find("{", q)
+        k = src.find(";", q)
         if j < 0 or (0 <= k < j):
             continue
         depth, p = 0, j
@@ -167,3 +177,137 @@ def locate(repo, name):
                     best = (score, cand)
     _LOC_CACHE[key] = best[1] if best else None
     return _LOC_CACHE[key]
+
+
+# ------------------------------------------------------------------------------------------------
+# exported-entry-point reachability: which *exported* contract functions can reach a given sink?
+# In Soroban every fn of a `#[contractimpl] impl Trait for X` block and every `pub fn` of a
+# `#[contractimpl] impl X` block is an entry point anyone can invoke.
+# ------------------------------------------------------------------------------------------------
+def _impl_blocks(src):
+    """yield (is_contractimpl, is_trait_impl, body_text) for each impl block"""
+    for m in re.finditer(r"((?:#\[[^\]]*\]\s*)*)impl(?:<[^>]*>)?\s+([^{;]+?)\{", src):
+        attrs, head = m.group(1), m.group(2)
+        j = m.end() - 1
+        depth, p = 0, j
+        while p < len(src):
+            if src[p] == "{":
+                depth += 1
+            elif src[p] == "}":
+                depth -= 1
+                if depth == 0:
+                    break
+            p += 1
+        yield ("contractimpl" in attrs), (" for " in " " + head + " "), src[j:p + 1]
+
+
+def exported_reaching(repo, rel_files, sink_pattern):
+    """names of exported entry points from which a call matching sink_pattern is reachable (call graph by
+    simple name within the given files), plus the set of all exported names"""
+    fns = {}       # name -> body
+    exported = set()
+    for rel in rel_files:
+        path = os.path.join(repo, rel)
+        if not os.path.exists(path):
+            return None, None
+        src = _strip_comments(_strip_tests(open(path).read()))
+        for name, body in _functions(src):
+            fns.setdefault(name, "")
+            fns[name] += body
+        for is_ci, is_trait, body in _impl_blocks(src):
+            if not is_ci:
+                continue
+            for m in re.finditer(r"(pub\s+)?(?:const\s+)?fn\s+([A-Za-z_0-9]+)\s*(?:<[^>{;]*>)?\s*\(", body):
+                if is_trait or m.group(1):
+                    exported.add(m.group(2))
+    direct = {n for n, b in fns.items() if re.search(sink_pattern, b)}
+    reach = set(direct)
+    changed = True
+    while changed:
+        changed = False
+        for n, b in fns.items():
+            if n in reach:
+                continue
+            if any(re.search(r"(?<![A-Za-z_0-9])" + re.escape(c) + r"\s*(?:::<[^>]*>)?\s*\(", b) for c in reach):
+                reach.add(n)
+                changed = True
+    return exported & reach, exported
+
+
+def _sink_frame(repo, oid, files, sink_pattern, allowed, what):
+    reach, exported = exported_reaching(repo, files, sink_pattern)
+    if reach is None:
+        return {"obligations": [{"id": oid, "status": "undecided", "detail": "source file missing"}]}
+    extra = sorted(reach - set(allowed))
+    if extra:
+        return {"obligations": [{"id": oid, "status": "failed", "detail": f"{what}: also reachable from the exported entry point(s) {extra}, which no contract covers (allowed: {sorted(allowed)})"}]}
+    if not reach:
+        return {"obligations": [{"id": oid, "status": "undecided", "detail": f"lost anchor: no exported entry point reaches {what}"}]}
+    return {"obligations": [{"id": oid, "status": "discharged", "detail": f"{what} is reachable only from {sorted(reach)} (of {len(exported)} exported entry points)"}]}
+
+
+GWC = ["contracts/axelar-gateway/src/contract.rs", "contracts/axelar-gateway/src/auth.rs", "contracts/axelar-gateway/src/event.rs"]
+
+
+def c13_announcers(repo):
+    return _sink_frame(repo, "C13.announcers", GWC, r"contract_called", ["call_contract"], "the contract_called announcement")
+
+
+def c02_exported_writers(repo):
+    return _sink_frame(repo, "C02.exported_writers", GWC, r"\.(set|remove|update)\s*\(\s*&?\s*DataKey::MessageApproval", ["approve_messages", "validate_message"], "a write to a message approval record")
+
+
+def c03_exported_writers(repo):
+    return _sink_frame(repo, "C03.exported_writers", GWC, r"\.(set|remove|update)\s*\(\s*&?\s*DataKey::(Epoch|SignersHashByEpoch|EpochBySignersHash|LastRotationTimestamp)\b",
+                       ["__constructor", "rotate_signers"], "a write to the epoch / signer lookups / rotation clock")
+
+
+def c14_fund_movers(repo):
+    return _sink_frame(repo, "C14.fund_movers", ["contracts/axelar-gas-service/src/contract.rs"], r"\.(try_)?(transfer|transfer_from|burn|burn_from|mint)\s*\(",
+                       ["pay_gas", "add_gas", "collect_fees", "refund"], "a token movement by the gas service")
+
+
+def c12_balance_writers(repo):
+    return _sink_frame(repo, "C12.balance_writers", ["contracts/interchain-token/src/contract.rs"], r"DataKey::Balance\b[^;]*;|DataKey::Balance\(",
+                       ["transfer", "transfer_from", "burn", "burn_from", "mint", "mint_from", "balance"], "an access to a balance entry")
+
+
+def c12_allowance_writers(repo):
+    return _sink_frame(repo, "C12.allowance_writers", ["contracts/interchain-token/src/contract.rs"], r"fn\s+write_allowance|\.temporary\(\)\s*\.set\s*\(",
+                       ["approve", "transfer_from", "burn_from"], "a write to an allowance entry")
+
+
+ITSF = ["contracts/interchain-token-service/src/contract.rs", "contracts/interchain-token-service/src/token_handler.rs"]
+
+
+def c05_token_movers(repo):
+    return _sink_frame(repo, "C05.token_movers", ITSF, r"\.(try_)?(transfer|transfer_from|burn|burn_from|mint|mint_from)\s*\(",
+                       ["interchain_transfer", "execute", "deploy_interchain_token"], "a token movement (mint / burn / transfer) by the service")
+
+
+def c11_registry_writers(repo):
+    return _sink_frame(repo, "C11.registry_writers", ITSF, r"\.(set|remove|update)\s*\(\s*&?\s*DataKey::TokenIdConfigKey",
+                       ["deploy_interchain_token", "register_canonical_token", "execute"], "a write to the token registry")
+
+
+def c17_forwarders(repo):
+    return _sink_frame(repo, "C17.forwarders", ["contracts/axelar-operators/src/contract.rs"], r"(try_)?invoke_contract", ["execute"], "a forwarded call")
+
+
+def c06_role_writers(repo):
+    """who can (re)assign a role: only constructors and the role's own transfer entry point"""
+    obs = []
+    for rel, allowed in [
+        ("contracts/axelar-gateway/src/contract.rs", ["__constructor"]),
+        ("contracts/axelar-gas-service/src/contract.rs", ["__constructor"]),
+        ("contracts/axelar-operators/src/contract.rs", ["__constructor"]),
+        ("contracts/interchain-token-service/src/contract.rs", ["__constructor"]),
+        ("contracts/interchain-token/src/contract.rs", ["__constructor", "set_admin", "transfer_ownership"]),
+    ]:
+        r = _sink_frame(repo, "C06.role_writers[" + rel.split("/")[1] + "]", [rel],
+                        r"set_owner\s*\(|set_operator\s*\(|transfer_ownership\s*::|transfer_operatorship\s*::|DataKey::GasCollector\s*,", allowed, "an assignment of a role")
+        o = r["obligations"][0]
+        if o["status"] == "undecided" and "no exported entry point" in o.get("detail", ""):
+            o["status"] = "discharged"
+        obs.append(o)
+    return {"obligations": obs}
